@@ -357,15 +357,23 @@ action view appliesTo { principal: U, resource: G };
 `
 
 var resolvedSchema *resolved.Schema
+var schemaErr error
 
-func init() {
+func initSchema() {
+	defer func() {
+		if r := recover(); r != nil {
+			schemaErr = fmt.Errorf("panic: %v", r)
+		}
+	}()
 	var s schema.Schema
 	if err := s.UnmarshalCedar([]byte(schemaText)); err != nil {
-		panic(err)
+		schemaErr = err
+		return
 	}
 	r, err := s.Resolve()
 	if err != nil {
-		panic(err)
+		schemaErr = err
+		return
 	}
 	resolvedSchema = r
 }
@@ -432,6 +440,10 @@ func spellingFamily() *core.Family {
 		N:      int64(len(combos)),
 		Serial: true,
 		Run: func(t *core.T, i int64) {
+			if resolvedSchema == nil {
+				t.Fail("harness-schema-does-not-resolve", schemaText, "resolves", fmt.Sprint(schemaErr))
+				return
+			}
 			d := doc(combos[i])
 			var em exptypes.EntityMap
 			var err error
@@ -589,6 +601,7 @@ func Check() *core.Check {
 			"every executed case is non-trivial (distinct datum)",
 		Assumptions: []string{"strings that are not valid UTF-8 are outside the domain (JSON cannot carry them)", "datetimes in the first representable day are excluded here (recorded under C12)"},
 		Families: func(tier string) []*core.Family {
+			initSchema()
 			fams := []*core.Family{valueFamily(), entityFamily(), entityMapFamily(), requestFamily(), typedSpellings(), spellingFamily()}
 			if tier == "thorough" {
 				return append(fams, scalarFamily(0, 0x10FFFF))
